@@ -78,10 +78,14 @@ def run_shard(desc):
                 raise RuntimeError("rotation table not well separated for lattice %d" % li)
     ringds = sorted(set(round(v, 6) for v in hk.values()))
     kinds = ("ideal", "spurious", "offsets", "partial")
-    for hkl_tol, ctol, mfrac, ds_tol, kind in itertools.product((0.01, 0.05), (0.002, -0.002), (0.5, 0.8), (0.005,) if tier == "quick" else (0.005, 0.002), kinds):
+    combos = list(itertools.product((0.01, 0.05), (0.002, -0.002), (0.5, 0.8), (0.005,) if tier == "quick" else (0.005, 0.002), kinds))
+    # a low minimum (30 % of a grain's reflections: orientations that index a third of a grain's peaks must be recognised as
+    # alternatives of a real grain, not reported) in both cosine_tol modes, and a partial grain holding EXACTLY minpks peaks
+    combos += [(0.01, ct, 0.3, 0.005, "ideal") for ct in (0.002, -0.002)] + [(0.01, 0.002, -1.0, 0.005, "partial")]
+    for hkl_tol, ctol, mfrac, ds_tol, kind in combos:
         if ctol < 0 and ng > 3:
             continue        # all-candidates mode is quadratic; kept to the small grain sets
-        minpks = int(mfrac * nref)
+        minpks = int(mfrac * nref) if mfrac > 0 else int(((np.arange(nref) * 7 + 3) % 10 < 3).sum())
         gvs = [g.copy() for g in gv_grain]
         n_expected = ng
         if kind == "offsets":
